@@ -678,7 +678,32 @@ func savedFrom(rng *ssa.Range, orig *ssa.MapUpdate) bool {
 			return
 		}
 		lk, isLk := mu.Value.(*ssa.Lookup)
-		if !isLk || an.Norm(lk.X) != an.Norm(orig.Map) || lk.Index != orig.Key || mu.Key != orig.Key {
+		if !isLk || an.Norm(lk.X) != an.Norm(orig.Map) {
+			return
+		}
+		if lk.Index != mu.Key {
+			return
+		}
+		if mu.Key != orig.Key {
+			// a separate, complete earlier loop over the same key collection
+			if an.Norm(mu.Key) != an.Norm(orig.Key) {
+				return
+			}
+			// every path from entry to the update passes the exhausted exit of the saving loop
+			nx := rangeNextOf(mu.Key)
+			if nx == nil {
+				return
+			}
+			exhausted := an.EdgesWhere(fn, func(f an.Fact) bool {
+				ex, ok := f.Cond.(*ssa.Extract)
+				return ok && ex.Tuple == ssa.Value(nx) && ex.Index == 0 && f.Neg
+			})
+			if len(exhausted) == 0 {
+				return
+			}
+			if hit, _ := an.PathTo(fn, nil, an.IsInstr(orig), an.NewGates().AddEdges(exhausted...)); hit == nil {
+				ok = true
+			}
 			return
 		}
 		// the save precedes the update in the same iteration
@@ -729,6 +754,43 @@ func ruleAtomDecorate(rule string) RuleFn {
 	}
 }
 
+// privateHelperOf reports whether fn is (transitively) called only from the
+// allowed owner functions and never has its address taken: such a helper is an
+// extracted part of its owner and shares its ownership.
+func privateHelperOf(c *an.Ctx, fn *ssa.Function, owners map[string]bool, depth int) bool {
+	if depth > 3 || fn.Parent() != nil {
+		return false
+	}
+	if o := fn.Object(); o != nil && o.Exported() {
+		return false
+	}
+	n := 0
+	ok := true
+	for _, g := range c.P.Funcs {
+		an.Instrs(g, func(in ssa.Instruction) {
+			for _, op := range in.Operands(nil) {
+				if *op != ssa.Value(fn) {
+					continue
+				}
+				k, isCall := in.(ssa.CallInstruction)
+				if !isCall || k.Common().Value != ssa.Value(fn) {
+					ok = false // address taken
+					continue
+				}
+				n++
+				caller := an.ShortName(g)
+				if i := strings.Index(caller, "$"); i > 0 {
+					caller = caller[:i]
+				}
+				if !owners[caller] && !(g != fn && privateHelperOf(c, g, owners, depth+1)) {
+					ok = false
+				}
+			}
+		})
+	}
+	return ok && n > 0
+}
+
 // ruleWOwners: fields of the registration state are written only inside the
 // transactions that own them.
 func ruleWOwners(rule string) RuleFn {
@@ -773,7 +835,12 @@ func ruleWOwners(rule string) RuleFn {
 				if i := strings.Index(nm, "$"); i > 0 {
 					base = nm[:i]
 				}
-				c.Check(ow[base], rule, f+" written in "+nm, "owner", f+" is written outside its owning transaction: registration state changes without the transaction's validation and compensation", e.in, nil)
+				isOwner := ow[base]
+				how := "owner"
+				if !isOwner && privateHelperOf(c, fn, ow, 0) {
+					isOwner, how = true, "private helper called only from the owner(s)"
+				}
+				c.Check(isOwner, rule, f+" written in "+nm, how, f+" is written outside its owning transaction: registration state changes without the transaction's validation and compensation", e.in, nil)
 			}
 		}
 		for f := range owners {
@@ -907,4 +974,14 @@ func ruleDecorateDup(rule string) RuleFn {
 			c.Check(strings.HasPrefix(v, "dig.newDecoratorNode(p:decorator, p:s,") && strings.HasSuffix(v, "#0"), rule, "Decorate registers the node built from its argument in the receiver scope", v, "the registered value is "+v, u, nil)
 		}
 	}
+}
+
+// rangeNextOf: for the key of a map iteration (Extract #1 of Next), the Next.
+func rangeNextOf(v ssa.Value) *ssa.Next {
+	ex, ok := v.(*ssa.Extract)
+	if !ok || ex.Index != 1 {
+		return nil
+	}
+	nx, _ := ex.Tuple.(*ssa.Next)
+	return nx
 }
